@@ -18,7 +18,7 @@ const ROOT_EXP: i64 = BASE_TIME + 20000 * DAY;
 struct World {
     dir: tempfile::TempDir,
     tuftool: String,
-    keys: BTreeMap<u64, (K, PathBuf)>, // 0 = owner, 1 = KA, 2 = KA2, 3 = KB
+    keys: BTreeMap<u64, (K, PathBuf)>, // 0 = owner, 1 = KA, 2 = KA2, 3 = KB, 4 = KB2
     root: PathBuf,
     staged: BTreeMap<String, PathBuf>, // "A" | "B" | "T" -> latest staging directory
     cur: (u64, u64, u64),              // ts, sn, tg as the model has them
@@ -43,7 +43,7 @@ impl World {
         let kd = dir.path().join("keys");
         std::fs::create_dir_all(&kd).unwrap();
         let mut keys = BTreeMap::new();
-        for n in 0u64..4 {
+        for n in 0u64..5 {
             let k = ed_key(920 + n);
             let f = kd.join(format!("k{n}"));
             std::fs::write(&f, &k.private_file).unwrap();
@@ -273,6 +273,23 @@ async fn run_behaviour(tuftool: &str, c: &Value) -> Value {
                 let r = w.tt(&a);
                 if r.0 {
                     w.staged.insert("T".into(), d);
+                }
+                r
+            }
+            "haddkey" | "hremovekey" | "hremoverole" => {
+                let d = w.fresh("stA");
+                let mut a: Vec<String> = vec!["delegation".into(), "--signing-role".into(), "A".into()];
+                match act {
+                    "haddkey" => a.extend(["add-key".into(), "--new-key".into(), w.s(&w.keys[&cmd["key"].as_u64().unwrap()].1), "--delegated-role".into(), "B".into()]),
+                    "hremovekey" => a.extend(["remove-key".into(), "--keyid".into(), w.keys[&cmd["key"].as_u64().unwrap()].0.keyid.clone(), "--delegated-role".into(), "B".into()]),
+                    _ => a.extend(["remove".into(), "--delegated-role".into(), "B".into()]),
+                }
+                a.extend(["-o".into(), w.s(&d), "-e".into(), FAR.into(), "-v".into(), cmd["ver"].to_string()]);
+                a.extend(w.kargs(&cmd["keys"]));
+                a.extend(w.repo_args());
+                let r = w.tt(&a);
+                if r.0 {
+                    w.staged.insert("A".into(), d);
                 }
                 r
             }
